@@ -99,6 +99,8 @@ type pathRun struct {
 	canonMemo map[[2]int]*smt.Term
 	hashIntApps []hashIntApp
 	bitLens [][2]*smt.Term
+	race *raceState
+	preemptBudget int
 }
 
 func (p *pathRun) note(format string, a ...interface{}) {
@@ -123,6 +125,7 @@ func (p *pathRun) addPC(t *smt.Term) {
 	if t.IsTrue() {
 		return
 	}
+	p.learnBounds(t)
 	p.pc = append(p.pc, t)
 }
 
@@ -178,7 +181,11 @@ func (p *pathRun) fork(cond *smt.Term, why string) bool {
 	tf := time.Now()
 	defer func() {
 		if d := time.Since(tf); d > 700*time.Millisecond && os.Getenv("GOSYM_SLOW") != "" {
-			fmt.Fprintf(os.Stderr, "  [slow fork %v] %s at %s: %.200s\n     stack %v\n", d.Round(time.Millisecond), why, p.site(p.lastFr), cond.String(), p.stack(p.lastFr))
+			cs := cond.String()
+			if n := 200; len(cs) > n && os.Getenv("GOSYM_SLOW") != "full" {
+				cs = cs[:n]
+			}
+			fmt.Fprintf(os.Stderr, "  [slow fork %v] %s at %s: %s\n     stack %v\n", d.Round(time.Millisecond), why, p.site(p.lastFr), cs, p.stack(p.lastFr))
 		}
 	}()
 	rt := p.feas(cond)
@@ -355,7 +362,7 @@ func (p *pathRun) searchModel(extra *smt.Term) (map[string]*big.Int, bool) {
 	}
 	rounds := 6
 	if order != nil {
-		rounds = 12
+		rounds = 18
 	}
 	for round := 0; round < rounds; round++ {
 		free := round % len(vars)
@@ -365,13 +372,33 @@ func (p *pathRun) searchModel(extra *smt.Term) (map[string]*big.Int, bool) {
 				continue
 			}
 			val := big.NewInt(small[(i*3+round*7)%len(small)] + int64(round*71))
-			if round >= 6 {
+			// rounds 6..11: every input just below the group order; rounds 12..17: the reader's
+			// coins just below the order, the harness inputs small, hash outputs pinned too
+			if round >= 6 && (round < 12 || strings.Contains(v.Name, "#")) {
 				val = new(big.Int).Sub(order, val)
 			}
 			pins = append(pins, c.Eq(v, c.IntC(val)))
 		}
+		if round >= 12 {
+			pinned := map[*smt.Term]bool{}
+			for i, ha := range p.hashIntApps {
+				if !pinned[ha.out] {
+					pinned[ha.out] = true
+					pins = append(pins, c.Eq(ha.out, c.IntC64(int64(i+2+round))))
+				}
+			}
+			for i, ha := range p.hashApps {
+				if ha.out != nil && ha.out.Sort.K != smt.KInt && !ha.out.IsConst() && !pinned[ha.out] {
+					pinned[ha.out] = true
+					pins = append(pins, c.Eq(ha.out, c.BVC64(ha.out.Sort.W, uint64(i+2+round))))
+				}
+			}
+		}
 		q := c.And(append(pins, extra)...)
 		r, m, _ := p.query(q, 4000, true)
+		if os.Getenv("GOSYM_TRACE_SEARCH") != "" {
+			fmt.Fprintf(os.Stderr, "  [model search round %d: %v]\n", round, r)
+		}
 		if r == smt.Sat {
 			return m, true
 		}
@@ -386,6 +413,38 @@ func (p *pathRun) learnBounds(cond *smt.Term) {
 	case "and":
 		for _, a := range cond.Args {
 			p.learnBounds(a)
+		}
+	case "ite":
+		// Cmp/Sign results compared with constants arrive as ite trees over Boolean constants
+		if cond.Args[1].IsFalse() && cond.Args[2].IsTrue() {
+			p.learnBounds(p.ctx.Not(cond.Args[0]))
+		} else if cond.Args[1].IsTrue() && cond.Args[2].IsFalse() {
+			p.learnBounds(cond.Args[0])
+		} else if cond.Args[1].IsFalse() {
+			// ite(c, false, x) holds: not c, and x
+			p.learnBounds(p.ctx.Not(cond.Args[0]))
+			p.learnBounds(cond.Args[2])
+		}
+	case "not":
+		in := cond.Args[0]
+		if in.Op == "ite" && in.Args[1].IsTrue() {
+			// not ite(c, true, x): not c, and not x
+			p.learnBounds(p.ctx.Not(in.Args[0]))
+			p.learnBounds(p.ctx.Not(in.Args[2]))
+		} else if in.Op == "ite" && in.Args[1].IsFalse() && in.Args[2].IsTrue() {
+			p.learnBounds(in.Args[0])
+		}
+		if len(in.Args) == 2 {
+			switch in.Op {
+			case "<":
+				p.learnBounds(p.ctx.Ge(in.Args[0], in.Args[1]))
+			case "<=":
+				p.learnBounds(p.ctx.Gt(in.Args[0], in.Args[1]))
+			case ">=":
+				p.learnBounds(p.ctx.Lt(in.Args[0], in.Args[1]))
+			case ">":
+				p.learnBounds(p.ctx.Le(in.Args[0], in.Args[1]))
+			}
 		}
 	case "<":
 		if cond.Args[1].IsConst() {
